@@ -16,6 +16,19 @@ Oracle (the property itself, Python rendering of ASCII / tab / a few wide charac
         cursor are identical to what incremental drawing left (checked when (i), (ii) hold).
 Model/code correspondence: the extracted vi_wfix / xleft rules of coq/DrawDefs.v predict the new
 top/left from the observed old ones for plain motion commands.
+
+Probe points.  ('cmd', i): after the first i commands (runs A, B, T above).  ('ins', i, off, k): INSIDE the insert
+started by command i, after `off` bytes of it (k = newlines typed so far): run A = P + ESC + `:q!`, run T = P + `@` +
+ESC + `:w! out`; the marker is typed in the pending insert, so the twin buffer is exactly the text the screen should
+show now (lines already typed, auto-indent + pref + typed text + post on the current line).  In-insert oracle: every
+row of the window is the rendering of line top+i of that text; the rows outside the lines typed in this insert share
+one `left`, the rows typed in this insert (led_printparts draws them alone) may each have their own; the terminal
+cursor is on the row of the current line, on the cell where the next character goes (clamped to the last column when
+the typed text ends exactly at the right margin).
+Split windows (^Ws ... ^Wj ^Wk ^Wx ^Wo ^Wc): the geometry is vi_switch's (upper = rows/2 - 1 text rows).  The ACTIVE
+window must satisfy (i)-(iii).  The INACTIVE one is repainted by the tail of vi() only when mod has VC_ALT (`:` command
+lines, ^L, ^Ws, ^Wj, ^Wk, ^Wx): after such a command its rows must be a window of the current buffer; after any other
+command (and inside an insert) they must be exactly what they were before it (drawing never spills into the other half).
 """
 import json, os
 import vlib
@@ -30,7 +43,9 @@ NARROW2 = ['é', 'ß', 'λ']       # single-width, multi-byte
 ATTR_SHIFT = 1 << 21
 WFIX = True
 SPLIT = True
-NQUICK = 260
+NQUICK = 170
+NAIMED = 78
+NSPLIT = 36
 
 # --------------------------------------------------------------------------------------------
 # rendering reference
@@ -260,21 +275,182 @@ def gen_case(rng, quick, k):
     g = Gen(rng, rows, cols, n)
     natoms = rng.range(3, 8 if quick else 14)
     atoms = [g.atom(PROFILES[prof]) for _ in range(natoms)]
-    if SPLIT and k % 9 == 4:
-        # split windows: ^Ws first (upper window active), then motions and scrolls only; odd heights included
-        rows = rng.choice([6, 7, 8, 9, 11, 24, 25])
-        g = Gen(rng, rows // 2, cols, n)
-        atoms = [b'\x17s'] + [g.atom([55, 100, 100, 100, 100, 100, 100]) for _ in range(natoms)]
-        prof = 'split'
-    opts = []
+    return finish_case(rng, rows, cols, lines, atoms, prof, quick)
+
+
+def finish_case(rng, rows, cols, lines, atoms, prof, quick, opts=None):
+    opts = list(opts or [])
     if rng.chance(1, 3):
         opts.append('se hll')
     if rng.chance(1, 6):
         opts.append('se nohl')
-    if rng.chance(1, 8):
+    if rng.chance(1, 8) and 'se ai' not in opts:
         opts.append('se noai')
     name = rng.choice(['f', 'f', 'f.c', 'f.sh'])
-    return {'rows': rows, 'cols': cols, 'lines': lines, 'atoms': [a.hex() for a in atoms], 'exinit': '|'.join(opts), 'name': name, 'profile': prof}
+    case = {'rows': rows, 'cols': cols, 'lines': lines, 'atoms': [a.hex() for a in atoms], 'exinit': '|'.join(opts), 'name': name, 'profile': prof}
+    case['mid'] = mid_points(rng, atoms, 4 if quick else 8)
+    return case
+
+
+# ---- aimed shapes: an edit on the first / last row of the window, undone and redone, mixed with scrolls; edits while the
+# window is scrolled horizontally; every prefix of the program is judged, so the state right after each edit is
+
+
+def ml_text(rng, h, ai=False):
+    """multi-line text typed in insert mode"""
+    nl = rng.choice([1, 2, 3, max(h - 1, 1), h, h + 1])
+    ws = []
+    for i in range(nl + 1):
+        w = ''.join(rng.choice('abcdefgxyz01') for _ in range(rng.choice([0, 1, 3, 6])))
+        if ai and rng.chance(1, 3):
+            w = rng.choice(['\t', '  ', ' \t']) + w
+        ws.append(w)
+    return '\n'.join(ws).encode()
+
+
+def gen_aimed(rng, quick, k):
+    rows = rng.choice([3, 4, 5, 6, 8, 10])
+    cols = rng.choice([8, 10, 20, 20, 40])
+    h = rows - 1
+    shape = ['top-O', 'bot-o', 'mid-i', 'ai', 'bot-J', 'put', 'bot-dd', 'horiz', 'horiz', 'scrollmix', 'scrollmix', 'bot-o', 'put'][k % 13]
+    n = rng.choice([h, h + 1, 2 * h + 1, 3 * h + 2, 4 * h + 1])
+    style = 'plain' if shape not in ('horiz',) else 'mixed'
+    lines = gen_lines(rng, n, cols, style)
+    if shape == 'ai':
+        lines = [(rng.choice(['\t', '    ', '\t\t', '  ']) if rng.chance(1, 2) else '') + l for l in lines]
+    if shape == 'horiz':
+        for i in range(0, n, 2):
+            lines[i] = ''.join(rng.choice('abcdefghijklmnopqrstuvwxyz   ') for _ in range(rng.choice([cols, cols + 1, cols + cols // 2, 2 * cols + 1, 3 * cols]))).strip() or 'x' * cols
+    g = Gen(rng, rows, cols, n)
+    e = lambda x: x.encode() if isinstance(x, str) else x
+
+    def to_top():
+        t = rng.range(2, max(2, n - 1))
+        return rng.choice([[b'H'], [e('%dG' % t), b'z\n', ], [e('%dz\n' % t), b'H'], [b'G', b'H'], [ctl('d'), b'H'], [e('%d' % rng.range(1, h)) + ctl('e'), b'H']])
+
+    def to_bot():
+        t = rng.range(min(h, n), n)
+        return rng.choice([[b'L'], [e('%dG' % t), b'z-'], [b'G'], [ctl('d'), b'L'], [e('%dz\n' % max(1, t - h + 1)), b'L'], [ctl('f'), b'L']])
+
+    def undo3():
+        return rng.choice([[b'u', ctl('r'), b'u'], [b'u', ctl('r')], [b'u'], [b'u', b'u', ctl('r'), ctl('r')]])
+    A = []
+    if shape == 'top-O':
+        A += to_top() + [b'O' + ml_text(rng, h) + ESC] + undo3() + [g.scroll(), b'O' + g.text() + ESC] + undo3()
+    elif shape == 'bot-o':
+        A += to_bot() + [b'o' + ml_text(rng, h) + ESC] + undo3() + [g.scroll()] + to_bot() + [b'o' + g.text() + ESC, b'u']
+    elif shape == 'mid-i':
+        A += rng.choice([to_top(), to_bot(), [e('%dG' % rng.range(1, n))]]) + [rng.choice([b'w', b'$', b'0', b'e'])]
+        A += [rng.choice([b'i', b'a', b'A', b'I', b'cw', b'S', b'cc', b'C', b's']) + ml_text(rng, h) + ESC] + undo3() + [g.scroll(), b'.'] + undo3()
+    elif shape == 'ai':
+        A += rng.choice([to_top(), to_bot()]) + [rng.choice([b'o', b'O', b'A', b'cc', b'S']) + ml_text(rng, h, ai=True) + ESC] + undo3()
+        A += [g.scroll(), rng.choice([b'o', b'O']) + ml_text(rng, 2, ai=True) + ESC, b'u']
+    elif shape == 'bot-J':
+        A += to_bot() + [rng.choice([b'J', b'3J', b'2J', e('%dJ' % (h + 1))])] + undo3() + [b'k', b'J', b'u', g.scroll()] + to_bot() + [b'kJ'[0:1], b'J', b'.']
+    elif shape == 'put':
+        m = rng.choice([2, 3, h - 1, h, h + 1]) or 1
+        reg = rng.choice([b'', b'"a'])
+        A += [e('%dG' % rng.range(1, n)), reg + e('%dyy' % m)]
+        A += rng.choice([to_top(), to_bot()]) + [reg + rng.choice([b'p', b'P'])] + undo3()
+        A += rng.choice([to_top(), to_bot()]) + [reg + rng.choice([b'2p', b'P', b'p', b'3P'])] + undo3() + [g.scroll(), reg + b'p', b'u']
+    elif shape == 'bot-dd':
+        A += to_bot() + [rng.choice([b'dd', b'2dd', b'dk', b'dG', b'dj', e('%ddd' % h)])] + undo3() + [b'.', g.scroll()] + to_bot() + [b'dd', b'.', b'u', b'u']
+    elif shape == 'horiz':
+        ln = 1 + 2 * rng.below(max(1, (n + 1) // 2))
+        A += [e('%dG' % ln), rng.choice([b'$', e('%d|' % (cols + 3)), e('%d|' % (2 * cols)), b'$b', e('%dl' % cols)])]
+        for _ in range(3):
+            A += [rng.choice([b'x', b'3x', b'X', b'D', b'rZ', b'~', b'iabc' + ESC, b'a' + g.text(nl=False) + ESC, b'A' + g.text(nl=False) + ESC, b'cwQQ' + ESC, b'ywP', b'yyp', b'J', b'dd',
+                              b'o' + g.text() + ESC, b'O' + g.text() + ESC, b'dw', b'db', b'd0', b'i\n' + ESC, b'p', b'>>', b'<<', b'ifoo\nbar' + ESC])]
+            A += rng.choice([[b'u'], [b'u', ctl('r')], [], [rng.choice([b'j', b'k', b'$', b'0', b'w', ctl('e'), ctl('y')])]])
+    else:   # scrollmix
+        for _ in range(4):
+            A += [g.scroll(), rng.choice([g.edit, g.insert, g.change, g.undo, g.edit])()]
+        A += [b'z' + rng.choice([b'\n', b'.', b'-']), b'u', ctl('r')]
+    A += [g.atom(PROFILES['mixed']) for _ in range(rng.range(0, 2))]
+    opts = ['se ai'] if shape == 'ai' else []
+    return finish_case(rng, rows, cols, lines, A, 'aimed-' + shape, quick, opts)
+
+
+def gen_split(rng, quick, k):
+    """two windows on one buffer: ^Ws, then motions, scrolls, edits, inserts, undo, ex commands and window switches"""
+    rows = rng.choice([6, 7, 8, 9, 10, 11, 24, 25])      # both halves get >= 2 text rows (see design.d/C19.md: one-row halves)
+    cols = rng.choice([10, 20, 20, 40])
+    hh = rows // 2 - 1
+    n = rng.choice([0, 1, hh, hh + 1, 2 * hh + 1, 3 * hh + 2, 5 * hh + 3, 40])
+    lines = gen_lines(rng, n, cols, rng.choice(['plain', 'plain', 'mixed']))
+    g = Gen(rng, max(rows // 2, 2), cols, n)
+    atoms = [b'\x17s']
+    natoms = rng.range(4, 9 if quick else 14)
+    restricted = (k % 3 == 0)           # motions and scrolls only (the shape that catches mis-sized halves)
+    for _ in range(natoms):
+        t = rng.below(100)
+        if restricted:
+            atoms.append(g.atom([55, 100, 100, 100, 100, 100, 100]))
+        elif t < 14:
+            atoms.append(b'\x17' + rng.choice([b'j', b'k', b'j', b'k', b'j', b'x', b'x', b'o', b'c', b's']))
+        elif t < 20:
+            atoms.append(rng.choice([b'G', b'1G', b'30' + ctl('e'), b'30' + ctl('y'), ctl('f'), ctl('b'), b'%dG' % max(1, n // 2)]))
+        else:
+            atoms.append(g.atom([18, 34, 50, 56, 76, 84, 98]))
+    return finish_case(rng, rows, cols, lines, atoms, 'split', quick)
+
+
+# ---- probe points inside an insert
+
+INS1 = b'iaAIoOsSC'
+
+
+def insert_body(atom):
+    """(start, end) of the typed text of an insert/change command `[count] cmd text ESC`, or None"""
+    if not atom.endswith(ESC) or len(atom) < 2:
+        return None
+    j = 0
+    while j < len(atom) and atom[j:j + 1].isdigit():
+        j += 1
+    c = atom[j:j + 1]
+    if c and c in INS1:
+        s = j + 1
+    elif c == b'c':
+        m = j + 1
+        while m < len(atom) and atom[m:m + 1].isdigit() and atom[m:m + 1] != b'0':
+            m += 1
+        if atom[m:m + 1] not in (b'w', b'c', b'$', b'b', b'e', b'j', b'k', b'0', b'l', b'G'):
+            return None
+        s = m + 1
+    else:
+        return None
+    e = len(atom) - 1
+    return (s, e) if s <= e else None
+
+
+def mid_points(rng, atoms, per_atom):
+    """[[atom index, byte offset inside the atom, newlines typed before the offset]]"""
+    out = []
+    for i, a in enumerate(atoms):
+        be = insert_body(a)
+        if not be:
+            continue
+        s, e = be
+        legal = [o for o in range(s, e + 1) if not (0x80 <= a[o] <= 0xbf) and not any(x in (0x16, 0x0b, 0x12, 0x10) for x in a[s:o])]
+        if not legal:
+            continue
+        want = {s, e}
+        for o in legal:
+            if a[o:o + 1] == b'\n' or (o > s and a[o - 1:o] == b'\n'):
+                want.add(o)
+        want = sorted(want & set(legal))
+        extra = [o for o in legal if o not in want]
+        if len(want) > per_atom:
+            keep = [want[0], want[-1]]
+            rest = want[1:-1]
+            rng.shuffle(rest)
+            want = sorted(keep + rest[:per_atom - 2])
+        elif extra:
+            rng.shuffle(extra)
+            want = sorted(want + extra[:min(2, per_atom - len(want))])
+        for o in want:
+            out.append([i, o, a[s:o].count(b'\n')])
+    return out
 
 
 # --------------------------------------------------------------------------------------------
@@ -285,28 +461,55 @@ def file_bytes(case):
     return ''.join(l + '\n' for l in case['lines']).encode('utf-8')
 
 
-def run_keys(exe, case, keys, readback=(), timeout=10):
+def run_keys(exe, case, keys, readback=(), timeout=20):
     env = {'EXINIT': case.get('exinit', '')}
     name = case.get('name', 'f')
     r = vlib.run_vi(exe, keys, files={name: file_bytes(case)}, args=[name], readback=readback,
                     rows=case['rows'], cols=case['cols'], timeout=timeout, env=env)
     if r.timed_out or r.crashed():
-        r2 = vlib.run_vi(exe, keys, files={name: file_bytes(case)}, args=[name], readback=readback,
-                         rows=case['rows'], cols=case['cols'], timeout=3 * timeout, env=env)
+        with SERIAL:                    # confirm alone, with a 3x longer limit
+            r2 = vlib.run_vi(exe, keys, files={name: file_bytes(case)}, args=[name], readback=readback,
+                             rows=case['rows'], cols=case['cols'], timeout=3 * timeout, env=env)
         return r2
     return r
 
 
+SERIAL = __import__('threading').Lock()
 QUIT = b':q!\n'
+WRITE = b':w! out\n'
 
 
-def run_prefix(exe, case, i):
-    """the three runs for the prefix of i atoms"""
-    p = b''.join(bytes.fromhex(a) for a in case['atoms'][:i])
-    a = run_keys(exe, case, p + QUIT)
-    b = run_keys(exe, case, p + b'\x0c' + QUIT)
-    t = run_keys(exe, case, p + b'i' + MARK.encode() + ESC + b':w! out\n' + QUIT, readback=['out'])
-    return a, b, t
+def atoms_bytes(case, i):
+    return b''.join(bytes.fromhex(a) for a in case['atoms'][:i])
+
+
+def probe_keys(case, pr):
+    if pr[0] == 'cmd':
+        return atoms_bytes(case, pr[1])
+    return atoms_bytes(case, pr[1]) + bytes.fromhex(case['atoms'][pr[1]])[:pr[2]]
+
+
+def run_probe(exe, case, pr):
+    """the runs of one probe point: (A, B, T); B is None inside an insert"""
+    p = probe_keys(case, pr)
+    if pr[0] == 'cmd':
+        a = run_keys(exe, case, p + QUIT)
+        b = run_keys(exe, case, p + b'\x0c' + QUIT)
+        t = run_keys(exe, case, p + b'i' + MARK.encode() + ESC + WRITE + QUIT, readback=['out'])
+        return a, b, t
+    a = run_keys(exe, case, p + ESC + QUIT)
+    t = run_keys(exe, case, p + MARK.encode() + ESC + WRITE + QUIT, readback=['out'])
+    return a, None, t
+
+
+def probes_of(case):
+    out = [('cmd', i) for i in range(len(case['atoms']) + 1)]
+    if case.get('only_mid'):
+        out = [('cmd', i) for i in range(len(case['atoms']))]     # the last command is only probed inside its insert
+    for m in case.get('mid', []):
+        if m[0] < len(case['atoms']):
+            out.append(('ins', m[0], m[1], m[2]))
+    return out
 
 
 def cuts(sa, sb, rows):
@@ -321,6 +524,18 @@ def cuts(sa, sb, rows):
         return cut, len(sb) - len(tail)
     k = sb.rfind(b'\x1b[%d;1H\x1b[K\r' % rows)
     return cut, (k if k >= 0 else len(sb))
+
+
+def cut_ins(sa, st):
+    """inside an insert: A = out(P) + out(ESC ...), T = out(P) + out(@ ...).  The output of ESC starts with an absolute
+    cursor address (vi_drawfix / the tail of vi()), the output of a typed character with CR (led_print on the current row)."""
+    cut = len(os.path.commonprefix([sa, st]))
+    e = sa.rfind(b'\x1b', 0, cut)
+    if e >= 0 and not any(0x40 <= x <= 0x7e for x in sa[e + 2:cut]):
+        cut = e
+    while cut > 0 and cut < len(sa) and 0x80 <= sa[cut] <= 0xbf:
+        cut -= 1
+    return cut
 
 
 def parse_snap(s):
@@ -376,6 +591,62 @@ def twin_state(t):
 
 
 # --------------------------------------------------------------------------------------------
+# window layout (vi_switch)
+
+DIGITS = b'0123456789'
+
+
+def win_cmd(atom):
+    b = atom.lstrip(DIGITS)
+    if len(b) == 2 and b[:1] == b'\x17':
+        return b[1:]
+    return None
+
+
+def layout_after(case, i):
+    """(split, active window id) after the first i commands: ^Ws splits (upper active), ^Wj/^Wk switch, ^Wx swaps the
+    halves and the active id, ^Wo/^Wc return to one window"""
+    split, act = False, 0
+    for a in case['atoms'][:i]:
+        k = win_cmd(bytes.fromhex(a))
+        if k == b's' and not split:
+            split, act = True, 0
+        elif k in (b'j', b'k', b'x') and split:
+            act = 1 - act
+        elif k in (b'o', b'c') and split:
+            split, act = False, 0
+    return split, act
+
+
+def geometry(rows, split, act):
+    """((first row, text rows) of the active window, the same of the inactive one or None)"""
+    if not split:
+        return (0, rows - 1), None
+    half = rows // 2            # vi_switch: window 0 = rows [0, half): half-1 text rows + its message row; window 1 the rest
+    up, low = (0, half - 1), (half, rows - 1 - half)
+    return (up, low) if act == 0 else (low, up)
+
+
+def is_alt(atom, split_before):
+    """does the command make the tail of vi() repaint the OTHER window (mod & VC_ALT)?"""
+    b = atom.lstrip(DIGITS)
+    if b[:1] == b':':
+        body = b[1:].split(b'\n')[0]
+        return body not in (b'', b'w')
+    if b == b'\x0c':
+        return True
+    k = win_cmd(atom)
+    if k == b's':
+        return not split_before
+    return k in (b'j', b'k', b'x') and split_before
+
+
+def view(st, off, h):
+    """the emulator state seen from a window of h text rows starting at screen row off"""
+    return {'cp': st['cp'][off:off + h], 'at': st['at'][off:off + h], 'r': st['r'] - off, 'c': st['c'], 'err': st['err']}
+
+
+# --------------------------------------------------------------------------------------------
 # the oracle
 
 
@@ -413,6 +684,10 @@ def check_at(st, buf, xrow, xoff, top, left, h, cols):
     return None
 
 
+def maxwidth(buf):
+    return max([0] + [sum(w for _, _, w in layout(l)) for l in buf]) + 2
+
+
 def explain(st, buf, xrow, xoff, h, cols):
     """(verdict, top, left): verdict None = property holds for some top/left"""
     pos, wid = cursor_cells(buf, xrow, xoff)
@@ -432,8 +707,7 @@ def explain(st, buf, xrow, xoff, h, cols):
             if v != 'rows' and best is None:
                 best = (v, top, left)
     # exhaustive search: is there any window at all?
-    maxw = max([0] + [sum(w for _, _, w in layout(l)) for l in buf]) + 2
-    maxw = max(maxw, st['c'] + pos + wid + cols)
+    maxw = max(maxwidth(buf), st['c'] + pos + wid + cols)
     matches = []
     for left in range(0, maxw + 1):
         rend = {}
@@ -471,18 +745,12 @@ def is_sticky_atom(a):
     return b in STICKY or b == b'|'
 
 
-def eval_prefix(exe, model, case, i):
-    """Evaluate the property after the first i atoms.  Returns a dict:
-       status: 'ok' | 'skip' | 'fail';  what, kf, observed, expected, top, left."""
-    a, b, t = run_prefix(exe, case, i)
-    rows, cols = case['rows'], case['cols']
-    return judge(exe, model, case, i, a, b, t, None)
-
-
 def lower_window_ok(rows_cp, buf, cols):
     """is the list of rows a window of buf for some top/left (no cursor involved)?"""
     hh = len(rows_cp)
-    maxw = max([0] + [sum(w for _, _, w in layout(l)) for l in buf]) + 2
+    if hh == 0:
+        return True
+    maxw = maxwidth(buf)
     for left in range(0, maxw + 1):
         for top in range(0, max(len(buf), 1)):
             if window(buf, top, left, hh, cols) == rows_cp:
@@ -490,77 +758,207 @@ def lower_window_ok(rows_cp, buf, cols):
     return False
 
 
-def judge(exe, model, case, i, a, b, t, snaps):
+def explain_ins(st, buf, xrow, xoff, h, cols, k, hint_left=None):
+    """the in-insert oracle on a window view.  buf/xrow/xoff: the text the screen should show and the insertion point.
+    Returns (verdict or None, top, left of the untouched rows, left of the current row)."""
+    r = st['r']
+    if not (0 <= r < h):
+        return 'insert mode: the terminal cursor is outside the text rows of the window', None, None, None
+    top = xrow - r
+    if top < 0:
+        return 'insert mode: the terminal cursor is on another row than the line being typed', None, None, None
+    lay = layout(buf[xrow])
+    # the current row: some left explains the row and the terminal cursor
+    cands = []
+    if xoff == 0 or not lay:
+        p0, w0 = (lay[0][1], lay[0][2]) if lay else (0, 1)
+        for cell in range(p0, p0 + w0):
+            cands.append((cell - st['c'], st['c']))         # (left, expected terminal column): on a cell of the first character
+    else:
+        pp, pw = lay[min(xoff, len(lay)) - 1][1:]
+        ins = pp + pw                                       # the cell where the next character goes
+        cands.append((ins - st['c'], st['c']))
+        if st['c'] == cols - 1:
+            cands.append((ins - cols, cols - 1))            # text ends exactly at the right margin: term_pos clamps
+    leftc = None
+    for lc, _ in cands:
+        if lc < 0:
+            continue
+        if xoff > 0 and lay and not (lc <= lay[min(xoff, len(lay)) - 1][1] + lay[min(xoff, len(lay)) - 1][2] - 1 < lc + cols):
+            continue                                        # the last typed character must be visible
+        if render(buf[xrow], lc, cols) == st['cp'][r]:
+            leftc = lc
+            break
+    if leftc is None:
+        # is the row right for any left (then the cursor is wrong), or not at all?
+        for lc in range(0, maxwidth(buf) + cols + 1):
+            if render(buf[xrow], lc, cols) == st['cp'][r]:
+                return 'insert mode: the terminal cursor is not on the cell where the next character goes', top, None, lc
+        return 'insert mode: the row of the line being typed does not show that line', top, None, None
+    # the other rows
+    maxw = maxwidth(buf)
+    common = None
+    order = [x for x in (hint_left, leftc, 0) if x is not None] + list(range(0, maxw + 1))
+    seen = set()
+    span_bad = None
+    other = [(i, top + i) for i in range(h) if i != r]
+    for i, idx in other:
+        if xrow - k <= idx < xrow:
+            t = row_text(buf, idx)
+            if not any(render(t, l, cols) == st['cp'][i] for l in range(0, maxw + 1)):
+                span_bad = i
+    if span_bad is not None:
+        return 'insert mode: a row typed earlier in this insert does not show its line (row %d)' % span_bad, top, None, leftc
+    fixed = [(i, idx) for i, idx in other if not (xrow - k <= idx < xrow)]
+    for l in order:
+        if l in seen:
+            continue
+        seen.add(l)
+        if all(render(row_text(buf, idx), l, cols) == st['cp'][i] for i, idx in fixed):
+            common = l
+            break
+    if common is None:
+        return 'insert mode: the rows outside the lines being typed are not the window of the text around them', top, None, leftc
+    return None, top, common, leftc
+
+
+def judge(case, pr, runs, snaps, prev=None):
+    """Evaluate the property at a probe point.  runs = (A, B, T); snaps = (state after P, state after the forced repaint or
+    None); prev = the result dict of the probe point before the last command (split windows / inside an insert).
+    Returns a dict: status 'ok' | 'skip' | 'fail'; what, observed, expected, top, left, st."""
+    a, b, t = runs
     rows, cols = case['rows'], case['cols']
-    h = rows - 1
-    split = i >= 1 and case['atoms'][0] == '1773'
-    if split:
-        half = rows // 2            # vi_switch: upper window = rows [0, half): half-1 text rows + its message row
-        h = half - 1
+    ins = pr[0] == 'ins'
+    i = pr[1]
+    split, act = layout_after(case, i)
+    (woff, h), inact = geometry(rows, split, act)
     for r in (a, b, t):
+        if r is None:
+            continue
         if r.timed_out or r.rc != 0:
             return {'status': 'skip', 'what': 'run did not finish (rc=%s timeout=%s)' % (r.rc, r.timed_out)}
     tw = twin_state(t)
     if tw is None:
         return {'status': 'skip', 'what': 'twin run gave no unique cursor marker'}
     buf, xrow, xoff = tw
-    if snaps is None:
-        cut, cutb = cuts(a.out, b.out, rows)
-        sa, sb = emulate(model, [(rows, cols, a.out, [cut]), (rows, cols, b.out, [cutb])])
-        snaps = (sa[0], sb[0])
     st, st2 = snaps
-    out = {'status': 'ok', 'buf': buf, 'xrow': xrow, 'xoff': xoff, 'st': st}
-    if st['err'] or st2['err']:
+    out = {'status': 'ok', 'buf': buf, 'xrow': xrow, 'xoff': xoff, 'st': st, 'split': split, 'act': act}
+    if st['err'] or (st2 and st2['err']):
         out.update(status='fail', what='the stream contains a sequence the terminal model does not know, or text past the right margin',
-                   observed={'errors': st['err'] + st2['err']}, expected={'errors': 0})
+                   observed={'errors': st['err'] + (st2['err'] if st2 else 0)}, expected={'errors': 0})
         return out
+    if h < 1:
+        return {'status': 'skip', 'what': 'window without text rows'}
+    sv = view(st, woff, h)
+    sv2 = view(st2, woff, h) if st2 else None
+    # ---- the inactive window
+    if split and inact and inact[1] > 0:
+        ioff, ih = inact
+        low = st['cp'][ioff:ioff + ih]
+        last = bytes.fromhex(case['atoms'][i - 1]) if i else b''
+        split_before, _ = layout_after(case, i - 1) if i else (False, 0)
+        alt = (not ins) and is_alt(last, split_before)
+        out['alt'] = alt
+        if alt:
+            if renderable(buf) and not lower_window_ok(low, buf, cols):
+                out.update(status='fail', what='split windows: after a command that repaints both windows the rows of the inactive window are not a window of the buffer lines',
+                           observed=[cells_str(r) for r in st['cp'][:rows]], expected='inactive window: rows [%d, %d) show consecutive buffer lines' % (ioff, ioff + ih))
+                return out
+            if st2 and low != st2['cp'][ioff:ioff + ih]:
+                out.update(status='fail', what='split windows: a forced full repaint (^L) changes the rows of the inactive window',
+                           observed=[cells_str(r) for r in low], expected=[cells_str(r) for r in st2['cp'][ioff:ioff + ih]])
+                return out
+        elif prev is not None and prev.get('status') in ('ok', 'fail') and prev.get('split') and prev.get('act') == act and prev.get('st'):
+            was = prev['st']['cp'][ioff:ioff + ih]
+            if low != was:
+                out.update(status='fail', what='split windows: a command in the active window changed the rows of the inactive window',
+                           observed=[cells_str(r) for r in low], expected=[cells_str(r) for r in was])
+                return out
+        if st2 and renderable(buf) and not lower_window_ok(st2['cp'][ioff:ioff + ih], buf, cols):
+            out.update(status='fail', what='split windows: after a forced full repaint (^L) the rows of the inactive window are not a window of the buffer lines',
+                       observed=[cells_str(r) for r in st2['cp'][:rows]], expected='inactive window: rows [%d, %d) show consecutive buffer lines' % (ioff, ioff + ih))
+            return out
+    # ---- inside an insert
+    if ins:
+        if not renderable(buf):
+            return {'status': 'skip', 'what': 'text outside the reference renderer'}
+        v, top, left, leftc = explain_ins(sv, buf, xrow, xoff, h, cols, pr[3], prev.get('left') if prev else None)
+        out['top'], out['left'], out['leftc'] = top, left, leftc
+        if v is not None:
+            exp_top = top if top is not None else 0
+            out.update(status='fail', what=v, observed={'rows': [cells_str(r) for r in sv['cp'][:h]], 'cursor': [sv['r'], sv['c']]},
+                       expected={'rows': [cells_str(r) for r in window(buf, exp_top, 0, h, cols)], 'line being typed': xrow, 'insertion point (characters)': xoff})
+        return out
+    # ---- the active window, between commands
     if not renderable(buf):
         # reference rendering not trusted for this text: full-repaint comparison only
-        if st['cp'][:h] != st2['cp'][:h]:
+        if sv['cp'][:h] != sv2['cp'][:h]:
             out.update(status='fail', what='text rows differ from what a forced full repaint draws (stale or missing row)',
-                       observed=[cells_str(r) for r in st['cp'][:h]], expected=[cells_str(r) for r in st2['cp'][:h]])
+                       observed=[cells_str(r) for r in sv['cp'][:h]], expected=[cells_str(r) for r in sv2['cp'][:h]])
         return out
-    v, top, left = explain(st, buf, xrow, xoff, h, cols)
+    v, top, left = explain(sv, buf, xrow, xoff, h, cols)
     out['top'], out['left'] = top, left
-    if v is None and split:
-        # the lower window: rows [half, rows-1) show a window of the (same, unchanged) buffer; its message row is the last row
-        low, low2 = st['cp'][half:rows - 1], st2['cp'][half:rows - 1]
-        if not lower_window_ok(low, buf, cols):
-            out.update(status='fail', what='split windows: the rows of the lower window are not a window of the buffer lines',
-                       observed=[cells_str(r) for r in st['cp'][:rows]], expected='upper window: %d text rows + message row, lower window: %d text rows + message row' % (half - 1, rows - half - 1))
-            return out
-        if low != low2:
-            out.update(status='fail', what='split windows: a forced full repaint (^L) changes the rows of the lower window',
-                       observed=[cells_str(r) for r in low], expected=[cells_str(r) for r in low2])
-            return out
     if v is None:
         # (iii) a forced full repaint draws the same window with the same attributes; it may only choose another window
         # (the steering column is recomputed from the cursor) if that one satisfies (i) and (ii) as well
-        if check_at(st2, buf, xrow, xoff, top, left, h, cols) is None:
+        if check_at(sv2, buf, xrow, xoff, top, left, h, cols) is None:
             # attributes are compared on the non-blank cells (how much of a blank, clipped row is highlighted depends on left)
-            bad = [k for k in range(h) if any(a != b2 and c != 32 for a, b2, c in zip(st['at'][k], st2['at'][k], st['cp'][k]))]
+            bad = [k for k in range(h) if any(a != b2 and c != 32 for a, b2, c in zip(sv['at'][k], sv2['at'][k], sv['cp'][k]))]
             if bad:
                 out.update(status='fail', what='row attributes (highlighting) differ from what a forced full repaint draws: stale row(s) %s' % bad,
                            observed={'rows': bad}, expected={'rows': []})
         else:
-            v2, top2, left2 = explain(st2, buf, xrow, xoff, h, cols)
+            v2, top2, left2 = explain(sv2, buf, xrow, xoff, h, cols)
             if v2 is not None:
                 out.update(status='fail', what='after a forced full repaint (^L): ' + v2,
-                           observed={'rows': [cells_str(r) for r in st2['cp'][:h]], 'cursor': [st2['r'], st2['c']]},
-                           expected={'rows': [cells_str(r) for r in st['cp'][:h]], 'cursor': [st['r'], st['c']]})
+                           observed={'rows': [cells_str(r) for r in sv2['cp'][:h]], 'cursor': [sv2['r'], sv2['c']]},
+                           expected={'rows': [cells_str(r) for r in sv['cp'][:h]], 'cursor': [sv['r'], sv['c']]})
             else:
                 out['repaint_moved_window'] = True
         return out
-    # the property fails here: describe, then classify
+    # the property fails here: describe
+    pre = 'split windows, active window rows [%d, %d): ' % (woff, woff + h) if split else ''
     if v == 'rows':
-        what = 'the text rows are not a window of the buffer lines (no top/left explains them)'
-        exp_top = max(0, xrow - st['r'])
+        what = pre + 'the text rows are not a window of the buffer lines (no top/left explains them)'
+        exp_top = max(0, xrow - sv['r'])
         expected = [cells_str(r) for r in window(buf, exp_top, 0, h, cols)]
     else:
-        what = v
+        what = pre + v
         expected = {'cursor_line': xrow, 'cursor_char_cells': list(cursor_cells(buf, xrow, xoff)), 'top': top, 'left': left}
-    out.update(status='fail', what=what, observed={'rows': [cells_str(r) for r in st['cp'][:h]], 'cursor': [st['r'], st['c']]}, expected=expected)
+    out.update(status='fail', what=what, observed={'rows': [cells_str(r) for r in sv['cp'][:h]], 'cursor': [sv['r'], sv['c']]}, expected=expected)
     return out
+
+
+def snaps_of(model, case, pr, runs):
+    a, b, t = runs
+    rows, cols = case['rows'], case['cols']
+    if pr[0] == 'cmd':
+        cut, cutb = cuts(a.out, b.out, rows)
+        sa, sb = emulate(model, [(rows, cols, a.out, [cut]), (rows, cols, b.out, [cutb])])
+        return sa[0], sb[0]
+    cut = cut_ins(a.out, t.out)
+    sa, = emulate(model, [(rows, cols, a.out, [cut])])
+    return sa[0], None
+
+
+def prev_probe(case, pr):
+    """the probe point whose state the inactive window is compared with"""
+    if pr[0] == 'ins':
+        return ('cmd', pr[1])
+    return ('cmd', pr[1] - 1) if pr[1] > 0 else None
+
+
+def eval_probe(exe, model, case, pr, need_prev=True):
+    """run and judge one probe point alone (shrinking, replay)"""
+    runs = run_probe(exe, case, pr)
+    for r in runs:
+        if r is not None and (r.timed_out or r.rc != 0):
+            return {'status': 'skip', 'what': 'run did not finish'}
+    prev = None
+    pp = prev_probe(case, pr)
+    if need_prev and pp is not None and (layout_after(case, pr[1])[0] or pr[0] == 'ins'):
+        prev = eval_probe(exe, model, case, pp, need_prev=False)
+    return judge(case, pr, runs, snaps_of(model, case, pr, runs), prev)
 
 
 # --------------------------------------------------------------------------------------------
@@ -571,47 +969,114 @@ def keys_repr(case, i=None):
     return [bytes.fromhex(a).decode('latin-1').encode('unicode_escape').decode() for a in atoms]
 
 
-def shrink_case(exe, model, case, i, what, kf):
-    """delta-debug the atoms (then the buffer lines) keeping the same failure class at the final state"""
-    base = dict(case)
-    base['atoms'] = case['atoms'][:i]
+def what_class(w):
+    return w.split(':')[0] if not w.startswith(('split windows', 'insert mode')) else w.split('(')[0]
 
-    def fails_atoms(atoms):
+
+def sub_case(case, pr):
+    """the case cut down to the probe point (which becomes its last one)"""
+    c = dict(case)
+    c.pop('_corpus', None)
+    if pr[0] == 'cmd':
+        c['atoms'] = case['atoms'][:pr[1]]
+        c['mid'] = []
+        return c, ('cmd', pr[1])
+    c['atoms'] = case['atoms'][:pr[1] + 1]
+    c['mid'] = [[pr[1], pr[2], pr[3]]]
+    c['only_mid'] = True
+    return c, pr
+
+
+def shrink_case(exe, model, case, pr, what):
+    """delta-debug the commands before the probe point (then the buffer lines) keeping the same failure class"""
+    base, bpr = sub_case(case, pr)
+    fixed = [] if pr[0] == 'cmd' else [base['atoms'][-1]]
+    front = base['atoms'][:len(base['atoms']) - len(fixed)]
+
+    def build(atoms, lines=None):
         c = dict(base)
-        c['atoms'] = atoms
-        r = eval_prefix(exe, model, c, len(atoms))
-        return r['status'] == 'fail' and r.get('kf') == kf and r['what'].split(':')[0] == what.split(':')[0]
-    try:
-        atoms = vlib.shrink(base['atoms'], fails_atoms, max_steps=80)
-        if atoms and fails_atoms(atoms):
-            base['atoms'] = atoms
-
-        def fails_lines(lines):
-            c = dict(base)
+        c['atoms'] = list(atoms) + fixed
+        if lines is not None:
             c['lines'] = lines
-            r = eval_prefix(exe, model, c, len(c['atoms']))
-            return r['status'] == 'fail' and r.get('kf') == kf and r['what'].split(':')[0] == what.split(':')[0]
+        if pr[0] == 'ins':
+            c['mid'] = [[len(atoms), pr[2], pr[3]]]
+            return c, ('ins', len(atoms), pr[2], pr[3])
+        return c, ('cmd', len(atoms))
+
+    def fails(c, p):
+        r = eval_probe(exe, model, c, p)
+        return r['status'] == 'fail' and what_class(r['what']) == what_class(what)
+    try:
+        if len(front) >= 2:
+            f2 = vlib.shrink(front, lambda at: fails(*build(at)), max_steps=80)
+            if f2 and fails(*build(f2)):
+                front = f2
+        elif len(front) == 1 and fixed and fails(*build([])):
+            front = []
+        base, bpr = build(front)
         if len(base['lines']) > 1:
-            lines = vlib.shrink(base['lines'], fails_lines, max_steps=60)
-            if lines and fails_lines(lines):
-                base['lines'] = lines
+            l2 = vlib.shrink(base['lines'], lambda ls: fails(*build(front, ls)), max_steps=60)
+            if l2 and fails(*build(front, l2)):
+                base, bpr = build(front, l2)
     except Exception:
         pass
-    return base
+    return base, bpr
 
 
-def report(res, exe, model, case, i, r):
-    kf = r.get('kf')
-    small = shrink_case(exe, model, case, i, r['what'], kf) if kf is None else dict(case, atoms=case['atoms'][:i])
-    r2 = eval_prefix(exe, model, small, len(small['atoms']))
+def classify(case, pr, r, prev):
+    """narrow classifiers of the recorded findings (KNOWN_FINDINGS.txt); None = not a known root cause.
+    KF-YANK-LINE-COL: a LINE-wise yank with a backward motion (yk, y1G, yH, y-, y{) moves the cursor line up, keeps the
+    offset and returns mod 0, so the column the terminal cursor is drawn at is the old line's."""
+    if pr[0] != 'cmd' or pr[1] == 0 or r.get('status') != 'fail' or r.get('buf') is None:
+        return None
+    last = bytes.fromhex(case['atoms'][pr[1] - 1])
+    b = last.lstrip(DIGITS)
+    if b[:1] == b'"':
+        b = b[2:].lstrip(DIGITS)
+    buf, xrow, what = r['buf'], r['xrow'], r['what']
+    hll = 'se hll' in case.get('exinit', '') or any(bytes.fromhex(a).startswith(b':se hll') for a in case['atoms'][:pr[1]])
+    split, act = layout_after(case, pr[1])
+    (woff, h), _ = geometry(case['rows'], split, act)
+    if what.endswith('terminal cursor not on the cell of the cursor character'):
+        if prev and prev.get('xrow') is not None and b[:1] == b'y' and len(b) >= 2 and b[1:2] != b'y' and xrow < prev['xrow']:
+            return 'KF-YANK-LINE-COL'
+    # KF-HLL-DELETE-END: lines deleted through the last line under `hll`: vi_delete draws with xrow one past the end, so the
+    # first filler row takes the current-line highlight; the tail repaints only the old and the new cursor line
+    if what.startswith('row attributes (highlighting) differ') and hll and b[:1] == b'd' and r.get('top') is not None:
+        if xrow == len(buf) - 1 and r['observed'].get('rows') == [len(buf) - r['top']]:
+            return 'KF-HLL-DELETE-END'
+    # KF-INSERT-LEFT: insert mode moved xleft, the typed rows were drawn at it, the last typed line was blank (its auto-indent is
+    # dropped), so the tail moved xleft back to the value before the command and saw no reason for a repaint
+    if 'the text rows are not a window of the buffer lines' in what and insert_body(last) and 'noai' not in case.get('exinit', ''):
+        st = view(r['st'], woff, h)
+        top = xrow - st['r']
+        if xrow < len(buf) and buf[xrow].strip(' \t') == '' and top >= 0:
+            mw = maxwidth(buf)
+            if all(any(render(row_text(buf, top + i), l, case['cols']) == st['cp'][i] for l in range(mw + 1)) for i in range(h)):
+                return 'KF-INSERT-LEFT'
+    return None
+
+
+def report(res, exe, model, case, pr, r, prev=None):
+    kf = classify(case, pr, r, prev)
+    if kf is not None:
+        small, spr = sub_case(case, pr)
+        v = {'what': r['what'], 'input': {'case': small, 'keys': keys_repr(small)}, 'expected': r.get('expected'), 'observed': r.get('observed')}
+        if not res.violation(v, kf=kf):
+            return False
+    small, spr = shrink_case(exe, model, case, pr, r['what'])
+    r2 = eval_probe(exe, model, small, spr)
     if r2['status'] != 'fail':
-        small, r2 = dict(case, atoms=case['atoms'][:i]), r
+        (small, spr), r2 = sub_case(case, pr), r
+    keys = keys_repr(small)
+    if spr[0] == 'ins':
+        keys[-1] = bytes.fromhex(small['atoms'][-1])[:spr[2]].decode('latin-1').encode('unicode_escape').decode() + '   <- still in insert mode here'
     v = {'what': r2['what'],
-         'input': {'case': small, 'keys': keys_repr(small), 'window': '%dx%d' % (small['rows'], small['cols']),
+         'input': {'case': small, 'keys': keys, 'window': '%dx%d' % (small['rows'], small['cols']),
                    'replay': 'LINES=%d COLUMNS=%d EXINIT=%r vi -v %s < keys (file = lines joined by newline)' % (small['rows'], small['cols'], small.get('exinit', ''), small.get('name', 'f'))},
          'expected': r2.get('expected'), 'observed': r2.get('observed'),
          'buffer': r2.get('buf'), 'cursor': [r2.get('xrow'), r2.get('xoff')]}
-    return res.violation(v, kf=kf)
+    return res.violation(v, kf=None)
 
 
 def corpus_cases():
@@ -633,9 +1098,9 @@ def run(ctx):
     model = ctx.model('term')
     if not model:
         return
-    res.rule = ('one evaluation = one (key program prefix, window size, buffer) state: emulator state of the real stream vs the buffer/cursor of the twin run, '
-                'plus the forced-repaint comparison; non-trivial = the prefix ends in a scroll, an edit, an undo/redo, an ex command, an insert, or the window is '
-                'not at top 0 / left 0; distinct = distinct (window, buffer, keys)')
+    res.rule = ('one evaluation = one probe point (key program prefix -- between two commands or inside an insert --, window size, buffer): emulator state of '
+                'the real stream vs the buffer/cursor of the twin run, plus the forced-repaint comparison; non-trivial = the prefix ends in a scroll, an edit, an '
+                'undo/redo, an ex command, an insert, inside an insert, or the window is not at top 0 / left 0; distinct = distinct (window, buffer, keys)')
     cases = []
     if ctx.replay:
         rp = json.load(open(ctx.replay))
@@ -644,42 +1109,75 @@ def run(ctx):
             cases.append(c)
     else:
         cases += corpus_cases()
-        n = NQUICK if ctx.quick else 4000
-        for k in range(n):
+        ng, na, ns = (NQUICK, NAIMED, NSPLIT) if ctx.quick else (2600, 1000, 400)
+        for k in range(ng):
             cases.append(gen_case(rng.fork('case%d' % k), ctx.quick, k))
-    # all runs of all prefixes
-    jobs = [(ci, i) for ci, c in enumerate(cases) for i in range(len(c['atoms']) + 1)]
-    runs = vlib.pmap(lambda j: run_prefix(exe, cases[j[0]], j[1]), jobs)
+        for k in range(na):
+            cases.append(gen_aimed(rng.fork('aimed%d' % k), ctx.quick, k))
+        if SPLIT:
+            for k in range(ns):
+                cases.append(gen_split(rng.fork('split%d' % k), ctx.quick, k))
+    # all runs of all probe points
+    jobs = [(ci, pr) for ci, c in enumerate(cases) for pr in probes_of(c)]
+    runs = vlib.pmap(lambda j: run_probe(exe, cases[j[0]], j[1]), jobs)
     reqs = []
     idx = []
-    for (ci, i), (a, b, t) in zip(jobs, runs):
+    for (ci, pr), (a, b, t) in zip(jobs, runs):
         c = cases[ci]
-        if a.timed_out or b.timed_out or a.rc != 0 or b.rc != 0:
+        if any(r is not None and (r.timed_out or r.rc != 0) for r in (a, b)):
             idx.append(None)
             continue
-        cut, cutb = cuts(a.out, b.out, c['rows'])
         idx.append(len(reqs))
-        reqs.append((c['rows'], c['cols'], a.out, [cut]))
-        reqs.append((c['rows'], c['cols'], b.out, [cutb]))
+        if pr[0] == 'cmd':
+            cut, cutb = cuts(a.out, b.out, c['rows'])
+            reqs.append((c['rows'], c['cols'], a.out, [cut]))
+            reqs.append((c['rows'], c['cols'], b.out, [cutb]))
+        else:
+            reqs.append((c['rows'], c['cols'], a.out, [cut_ins(a.out, t.out)]))
     snaps = emulate(model, reqs)
     failed_cases = set()
     results = {}
-    for (ci, i), (a, b, t), k in zip(jobs, runs, idx):
+    order = sorted(range(len(jobs)), key=lambda n: (jobs[n][0], jobs[n][1][1], 0 if jobs[n][1][0] == 'cmd' else 1, jobs[n][1][2:]))
+    for n in order:
+        (ci, pr), rr, k = jobs[n], runs[n], idx[n]
         c = cases[ci]
+        i = pr[1]
         res.evaluations += 1
         if k is None:
             r = {'status': 'skip', 'what': 'run did not finish'}
         else:
-            r = judge(exe, model, c, i, a, b, t, (snaps[k][0], snaps[k + 1][0]))
-        results[(ci, i)] = r
+            sn = (snaps[k][0], snaps[k + 1][0]) if pr[0] == 'cmd' else (snaps[k][0], None)
+            pp = prev_probe(c, pr)
+            r = judge(c, pr, rr, sn, results.get((ci, pp)) if pp else None)
+        results[(ci, pr)] = r
         last = bytes.fromhex(c['atoms'][i - 1]) if i else b''
         res.count('window %dx%d' % (c['rows'], c['cols']) if (c['rows'], c['cols']) in ((2, 2), (24, 80)) else 'window other')
         res.count('buffer ' + ('empty' if not c['lines'] else 'shorter' if len(c['lines']) < c['rows'] - 1 else 'longer-or-equal'))
+        res.count('profile ' + c.get('profile', '?').split('-')[0])
         if r['status'] == 'skip':
             res.count('skipped: ' + r['what'][:40])
             continue
-        if i and (r.get('top') or r.get('left') or not is_plain_motion(last)):
+        if pr[0] == 'ins':
+            res.count('probe points inside an insert')
+            if pr[3]:
+                res.count('probe points inside an insert after a typed newline')
+            if r.get('leftc'):
+                res.count('probe points inside an insert with the current row scrolled horizontally')
+            res.nontriv((c['rows'], c['cols'], tuple(c['lines']), tuple(c['atoms'][:i]), pr[2]))
+        elif i and (r.get('top') or r.get('left') or not is_plain_motion(last)):
             res.nontriv((c['rows'], c['cols'], tuple(c['lines']), tuple(c['atoms'][:i])))
+        if pr[0] == 'cmd' and i:
+            kind = atom_kind(last)
+            if kind:
+                res.count('state right after ' + kind)
+                if r.get('left'):
+                    res.count('state right after an edit with left > 0' if kind != 'a scroll' else 'state right after a scroll with left > 0')
+        if r.get('split'):
+            res.count('split: probe points with two windows')
+            if r.get('act') == 1:
+                res.count('split: lower window active')
+            if r.get('alt'):
+                res.count('split: inactive window judged after a both-window repaint')
         if r.get('left'):
             res.count('states with left > 0')
         if r.get('repaint_moved_window'):
@@ -687,16 +1185,43 @@ def run(ctx):
         if r.get('top'):
             res.count('states with top > 0')
         if r['status'] == 'fail' and ci not in failed_cases:
-            failed_cases.add(ci)        # first failing prefix of a program only
-            report(res, exe, model, c, i, r)
-    for (ci, i) in list(results)[:400:67]:
-        r = results[(ci, i)]
-        res.sample({'window': '%dx%d' % (cases[ci]['rows'], cases[ci]['cols']), 'keys': keys_repr(cases[ci], i), 'status': r['status'],
+            pp = prev_probe(c, pr)
+            failed_cases.add(ci)        # first failing probe point of a program only (the stale column of a known finding persists)
+            report(res, exe, model, c, pr, r, results.get((ci, pp)) if pp else None)
+    for key in list(results)[:600:97]:
+        ci, pr = key
+        r = results[key]
+        res.sample({'window': '%dx%d' % (cases[ci]['rows'], cases[ci]['cols']), 'keys': keys_repr(cases[ci], pr[1]), 'probe': list(pr), 'status': r['status'],
                     'top': r.get('top'), 'left': r.get('left')})
     res.extra['programs'] = len(cases)
     res.extra['states'] = len(jobs)
     if WFIX:
         wfix_correspondence(ctx, model, cases, results)
+
+
+def atom_kind(a):
+    b = a.lstrip(DIGITS)
+    if not b:
+        return None
+    if insert_body(a):
+        return 'an insert or change' + (' with typed newlines' if b'\n' in a else '')
+    if b[:1] == b':':
+        return 'an ex command line'
+    if b in (b'u', b'uu'):
+        return 'an undo'
+    if b == b'\x12' or b == b'u\x12':
+        return 'a redo'
+    if b[:1] in (b'p', b'P') or (b[:1] == b'"' and b[2:3] in (b'p', b'P')):
+        return 'a put'
+    if b == b'J':
+        return 'a join'
+    if b[:1] in (b'd', b'x', b'X', b'D'):
+        return 'a delete'
+    if b[:1] in (b'\x05', b'\x19', b'\x04', b'\x15', b'\x06', b'\x02', b'z'):
+        return 'a scroll'
+    if win_cmd(a):
+        return 'a window command'
+    return None
 
 
 def is_plain_motion(a):
@@ -709,19 +1234,23 @@ def wfix_correspondence(ctx, model, cases, results):
     res = ctx.res
     lines = []
     meta = []
-    for (ci, i), r in results.items():
-        if i == 0 or r['status'] != 'ok' or r.get('top') is None:
+    for (ci, pr), r in results.items():
+        i = pr[1]
+        if pr[0] != 'cmd' or i == 0 or r['status'] != 'ok' or r.get('top') is None:
             continue
-        p = results.get((ci, i - 1))
+        p = results.get((ci, ('cmd', i - 1)))
         if not p or p['status'] != 'ok' or p.get('top') is None:
             continue
         c = cases[ci]
         last = bytes.fromhex(c['atoms'][i - 1])
         if not is_plain_motion(last):
             continue
-        h, cols = c['rows'] - 1, c['cols']
+        (woff, h), _ = geometry(c['rows'], r.get('split'), r.get('act'))
+        if (p.get('split'), p.get('act')) != (r.get('split'), r.get('act')):
+            continue
+        cols = c['cols']
         # the found top/left must be the only explanation on both sides (blank screens are ambiguous)
-        if not unique_window(p, h, cols) or not unique_window(r, h, cols):
+        if not unique_window(p, woff, h, cols) or not unique_window(r, woff, h, cols):
             continue
         pos, wid = cursor_cells(r['buf'], r['xrow'], r['xoff'])
         lines.append('wfix %d %d %d %d %d %d %d' % (h, cols, p['top'], p['left'], r['xrow'], len(r['buf']), pos))
@@ -740,11 +1269,11 @@ def wfix_correspondence(ctx, model, cases, results):
                           'implementation': want, 'model': o})
 
 
-def unique_window(r, h, cols):
+def unique_window(r, woff, h, cols):
     buf, st = r['buf'], r['st']
     n = 0
     for left in {0, r['left'], r['left'] + 1, max(0, r['left'] - 1)}:
         for top in range(0, max(len(buf), 1)):
-            if window(buf, top, left, h, cols) == st['cp'][:h]:
+            if window(buf, top, left, h, cols) == st['cp'][woff:woff + h]:
                 n += 1
     return n == 1
